@@ -73,6 +73,7 @@ type Sim struct {
 	Net *simnet.Net
 
 	schedG      uint64
+	noYield     map[uint64]int
 	unlockEpoch atomic.Int64
 	mu          sync.Mutex
 	tasks       map[uint64]*Task
@@ -102,7 +103,7 @@ type Sim struct {
 }
 
 func NewSim(t *tape.Tape, log *engine.EvLog, st *engine.Stats) *Sim {
-	return &Sim{T: t, Log: log, S: st, tasks: map[uint64]*Task{}, siteOrd: map[string]int{},
+	return &Sim{T: t, Log: log, S: st, noYield: map[uint64]int{}, tasks: map[uint64]*Task{}, siteOrd: map[string]int{},
 		prio: map[string]int64{}, changeAt: map[int]bool{}, Switches: map[string]bool{}, victimN: -1, MaxSteps: 6000}
 }
 
@@ -117,6 +118,10 @@ func (s *Sim) hook(site string) {
 func (s *Sim) park(site string, lockWait bool) {
 	g := goid()
 	s.mu.Lock()
+	if s.noYield[g] > 0 && !lockWait {
+		s.mu.Unlock()
+		return
+	}
 	t := s.tasks[g]
 	if t == nil {
 		t = &Task{goid: g, First: site}
@@ -147,6 +152,18 @@ func (s *Sim) lockHook(try func() bool, lock func(), site string) {
 }
 
 func (s *Sim) unlockHook() { s.unlockEpoch.Add(1) }
+
+// noYieldHook brackets code that must not park (the body of a sync.Once.Do).
+func (s *Sim) noYieldHook(enter bool) {
+	g := goid()
+	s.mu.Lock()
+	if enter {
+		s.noYield[g]++
+	} else if s.noYield[g] > 0 {
+		s.noYield[g]--
+	}
+	s.mu.Unlock()
+}
 
 // settle waits for quiescence and names tasks that appeared since the last step.
 func (s *Sim) settle() {
@@ -340,6 +357,7 @@ func (s *Sim) RunBubble(body func()) (bubbleErr error) {
 		simyield.ListenHook = nil
 		simyield.LockHook = nil
 		simyield.UnlockHook = nil
+		simyield.NoYieldHook = nil
 		if r := recover(); r != nil {
 			bubbleErr = fmt.Errorf("%v", r)
 		}
@@ -361,6 +379,7 @@ func (s *Sim) RunBubble(body func()) (bubbleErr error) {
 		simyield.ListenHook = s.listenAndServe
 		simyield.LockHook = s.lockHook
 		simyield.UnlockHook = s.unlockHook
+		simyield.NoYieldHook = s.noYieldHook
 		body()
 	})
 	if bodyPanic != nil {
